@@ -122,15 +122,20 @@ def _r1(ck: Checker, prog: Program):
                     problems[k].append(f"None -> {v[k]}")
             else:
                 seen[k].add("given")
-                if not equal(v[k], sp.Function("argmin")(sp.Abs(FRQ - lims[k]))):
+                # the index range [lo, hi) is half-open: the sample nearest to the upper limit may lie inside the range and is then the
+                # right-hand neighbour of the last interior candidate, so the upper bound is one past it
+                nearest = sp.Function("argmin")(sp.Abs(FRQ - lims[k]))
+                if not equal(v[k], nearest + k):
                     problems[k].append(f"given limit -> {v[k]}")
     for k, name in ((0, "lower"), (1, "upper")):
         if not problems[k] and seen[k] == {"none", "given"}:
-            ck.ok("C08.R1", f.qualname, f"{name} index bound: None -> {dflt[k]}; else argmin|frequency - limit|")
+            ck.ok("C08.R1", f.qualname, f"{name} index bound: None -> {dflt[k]}; else argmin|frequency - limit|" + (" + 1 (half-open range keeps the nearest sample)" if k else ""))
         else:
             ck.violation("C08.R1", f.qualname, f"{name} index bound",
                          f"index bound for the {name} limit: {'; '.join(problems[k]) or 'cases ' + str(sorted(seen[k]))}; expected `{dflt[k]}` only when the limit is None and "
-                         f"argmin|frequency - limit| otherwise (a limit of 0 is a limit)", loc=f.loc())
+                         f"argmin|frequency - limit|{' + 1' if k else ''} otherwise (a limit of 0 is a limit"
+                         + ("; the slice [lo:hi] is half-open, so stopping at the nearest sample drops it: a range reaching to or beyond the end of the grid "
+                            "loses the last sample and the local maximum next to it" if k else "") + ")", loc=f.loc())
     # ---- bounded
     f = cls.methods["_find_peak_bounded"]
     leaves = [l for l in _table(prog, f, cls, "HvsrCurve") if l.exit == "return"]
